@@ -156,6 +156,7 @@ def _anc13(n):
 
 def run(ctx: Ctx) -> None:
     rule_unwrap_source(ctx)
+    rule_noise_preserved(ctx)
     from .c12 import rule_nodekeys
     rule_nodekeys(ctx)  # remove_identity / unwrap_nodes select nodes through node_dict: the index must follow add / remove / replace
     rule_remove_identity_scope(ctx)
@@ -205,6 +206,43 @@ def _edit_replace_after_store(src: str) -> str:
     return src[:a] + src[b:end] + removal + src[end:]
 
 
+def rule_noise_preserved(ctx: Ctx) -> None:
+    """effect.noise-preserved: the circuit rewrites that delete operations (group_one_qubit_gates, remove_identity) must not delete the
+    noise attached to them: either the deleted operation's `.noise` flows into the `noise=` argument of what replaces it, or the deletion
+    is limited to operations whose noise is NoNoise.  An Identity with a noise model is how a bare noise channel is placed in a circuit
+    (OneQubitGateWrapper.unwrap creates exactly that), and a one-qubit gate's noise is part of what the circuit compiles to."""
+    import ast as _ast
+    from ..core import call_attr as _ca, calls_in as _calls, norm as _norm, short as _short, parent as _parent, get_kw as _kw
+    repo = ctx.repo
+    DAGF = "graphiq/circuit/circuit_dag.py"
+    m = repo.module(DAGF)
+    for q in ("CircuitDAG.group_one_qubit_gates", "CircuitDAG.remove_identity"):
+        fn = repo.anchor(DAGF, q)
+        ctx.touch(m, fn)
+        removes = [c for c in _calls(fn) if _ca(c) == "remove_op"]
+        if not removes:
+            raise AnalysisError(f"{q}: no remove_op call")
+        reads_noise = [x for x in _ast.walk(fn) if isinstance(x, _ast.Attribute) and x.attr == "noise" and isinstance(x.ctx, _ast.Load)]
+        # (a) noise handed to a constructed replacement
+        carried = any(isinstance(c, _ast.Call) and _kw(c, "noise") is not None and any(
+            isinstance(y, _ast.Name) for y in _ast.walk(_kw(c, "noise"))) for c in _ast.walk(fn)) and bool(reads_noise)
+        # (b) every removal guarded by a NoNoise test on the operation's noise
+        def guarded(c):
+            p_ = _parent(c)
+            while p_ is not None and p_ is not fn:
+                if isinstance(p_, _ast.If) and "noise" in _norm(p_.test) and "NoNoise" in _norm(p_.test):
+                    return True
+                p_ = _parent(p_)
+            return False
+        if carried or all(guarded(c) for c in removes):
+            ctx.ok("effect.noise-preserved", m, removes[0], what=f"{q}: noise of the deleted operations is " + ("carried into the replacement" if carried else "known to be NoNoise"))
+        else:
+            ctx.fail("effect.noise-preserved", m, removes[0],
+                     f"{q} deletes operations with `{_short(removes[0])}` and never looks at their `.noise`: a gate's (or an Identity's) noise model is "
+                     f"dropped, so the rewritten circuit compiles to a different state when noise is simulated", func=q,
+                     construct=f"{q}: noise of removed operations dropped")
+
+
 def rule_unwrap_source(ctx: Ctx) -> None:
     """unwrap.source: unwrap_nodes replaces every wrapper node by the operations its unwrap() returns — that method is where each gate gets
     its register and *its share of the wrapper's noise*.  An operation that unwrap_nodes builds itself (from a class of
@@ -248,6 +286,8 @@ def rule_unwrap_source(ctx: Ctx) -> None:
 
 
 KNOCKOUTS = [
+    Knockout("remove-identity-ignores-noise", "graphiq/circuit/circuit_dag.py", sub_once('                if isinstance(self.dag.nodes[node]["op"].noise, NoNoise):\n                    self.remove_op(node)\n', '                self.remove_op(node)\n'), "effect.noise-preserved", "remove_identity"),
+    Knockout("grouping-wrapper-without-noise", "graphiq/circuit/circuit_dag.py", lambda src: (src.replace("gate_list, register, reg_type, noise=noise_list", "gate_list, register, reg_type") if src.count("gate_list, register, reg_type, noise=noise_list") == 2 else (_ for _ in ()).throw(LookupError("anchor"))), "effect.noise-preserved", "group_one_qubit_gates"),
     Knockout("unwrap-single-gate-fast-path", "graphiq/circuit/circuit_dag.py", sub_once('                op_list = self.dag.nodes[node]["op"].unwrap()\n', '                wrapper = self.dag.nodes[node]["op"]\n                if len(wrapper.operations) == 1:\n                    self.replace_op(node, wrapper.operations[0](register=wrapper.register, reg_type=wrapper.reg_type))\n                    continue\n                op_list = wrapper.unwrap()\n'), "unwrap.source", "not from unwrap"),
     Knockout("replace-op-unregisters-after-store", "graphiq/circuit/circuit_dag.py", _edit_replace_after_store, "sibling.nodekeys", "replace_op"),
     Knockout("identity-wrapper-magnitudes", DAG, _identity_wrappers, "identity.scope", "any diagonal unitary"),
